@@ -86,7 +86,11 @@ impl GitScenario {
 
 fn gen_base(rng: &mut Rng, with_commands: bool, shared: bool) -> GitScenario {
     let nd = rng.range(2, 4);
-    let dirs: Vec<String> = (0..nd).map(|i| format!("d{}", i)).collect();
+    let mut dirs: Vec<String> = (0..nd).map(|i| format!("d{}", i)).collect();
+    // one world in eight has a target whose name begins with the name of monorail's output directory
+    if rng.chance(1, 8) {
+        dirs[nd - 1] = "monorail-out-tools".to_string();
+    }
     let shared = if shared && rng.chance(1, 2) { Some("shared".to_string()) } else { None };
     let mut initial = vec![];
     let mut alld = dirs.clone();
